@@ -20,6 +20,7 @@ import (
 	"sync"
 
 	"github.com/xelaj/mtproto/internal/encoding/tl"
+	"github.com/xelaj/mtproto/internal/mtproto/objects"
 	"github.com/xelaj/mtproto/zverif/ref/tlw"
 	"github.com/xelaj/mtproto/zverif/tlx"
 	"github.com/xelaj/mtproto/zverif/vr"
@@ -215,6 +216,18 @@ func (c *ctx) specials() {
 		b3 := w().U32(0x62d6b459).U32(tlw.Vector).U32(cnt).I64(1).I64(2).B
 		c.one(e, "msgs_ack|count="+numClass(cnt, 2), fmt.Sprintf("msgs_ack|count=%#x", cnt), b3, false)
 	}
+	// more implicit vectors in the data than hints given: DecodeUnknownObject(data, hints...) with 0..2 hints
+	for depth := 1; depth <= 3; depth++ {
+		// vector of rpc_result whose result is again a vector of rpc_result ... ending in a vector of longs
+		inner := w().U32(tlw.Vector).U32(1).I64(7).B
+		for d := 1; d < depth; d++ {
+			inner = w().U32(tlw.Vector).U32(1).U32(0xf35c6d01).I64(int64(d)).Raw(inner).B
+		}
+		for nh := 0; nh <= 2; nh++ {
+			c.hinted(e, fmt.Sprintf("nested-vectors|depth=%d|hints=%d", depth, nh), inner, nh)
+		}
+		c.hinted(e, fmt.Sprintf("rpc_result(nested-vectors)|depth=%d|hints=1", depth), w().U32(0xf35c6d01).I64(1).Raw(inner).B, 1)
+	}
 	// gzip bodies
 	gz := func(p []byte) []byte {
 		var buf bytes.Buffer
@@ -399,4 +412,26 @@ func firstLines(s string, n int) string {
 		l = l[:n]
 	}
 	return strings.Join(l, " / ")
+}
+
+// hinted decodes data through DecodeUnknownObject with nh hints of type []*objects.RpcResult.
+func (c *ctx) hinted(e *tlx.Entry, id string, data []byte, nh int) {
+	c.seq++
+	if c.seq < c.from {
+		return
+	}
+	if c.prog != nil {
+		c.prog.WriteAt([]byte(fmt.Sprintf("%020d %s\n", c.seq, id)), 0)
+	}
+	hints := make([]reflect.Type, nh)
+	for i := range hints {
+		hints[i] = reflect.TypeOf([]*objects.RpcResult{})
+	}
+	var err error
+	p, pm, fr := vr.Try(func() { _, err = tl.DecodeUnknownObject(data, hints...) })
+	c.run.Eval("hinted|"+id, true)
+	_ = err
+	if p {
+		c.run.Violation(fmt.Sprintf("DecodeUnknownObject(hints)|panic|%s|%s|%s", vr.MsgClass(pm), fr, id), fmt.Sprintf("%s: panic: %s in %s", id, pm, fr), map[string]any{"case": id, "data_hex": fmt.Sprintf("%x", data)})
+	}
 }
